@@ -6,7 +6,8 @@
    BroadcastTransmitter + CopyBroadcastReceiver over one buffer of capacity cap whose three trailer
    counters start at c0; `pre` are transmits made before the receiver is created, `h` the history of
    Transmit / Receive / Dump afterwards.  w = W64 is the repaired do_validate (fixes/C08-validate-i64.diff),
-   w = W32 the code as found.  spec_history: the lossy channel of Spec/Lossy.v (positions only).
+   w = W32 the code as found; hv = true is the copying receiver that validates the two header words before using
+   them (fixes/C08-copy-receiver-validate-header.diff), hv = false the code as found (no difference sequentially).  spec_history: the lossy channel of Spec/Lossy.v (positions only).
    hist_ok cap w c0 pre h: 0 <= c0, c0 a multiple of 8, message types are i32 values and
    c0 + 2*cap*(number of operations) < lim cap w, where lim = 2^62 for W64 and 2^31 - cap for W32. *)
 From Coq Require Import String.
@@ -31,41 +32,41 @@ Example C08_layout :
 Proof. repeat split; reflexivity. Qed.
 
 (* The model refines the lossy channel on every history: same results, same lapped counts, same errors. *)
-Theorem C08_refines : forall cap k m c0 pre h,
+Theorem C08_refines : forall cap k m hv c0 pre h,
   cap = 2 ^ k -> 5 <= k <= 30 -> hist_ok cap W64 c0 pre h ->
-  map erase (run_history m W64 cap c0 pre h) = spec_history cap c0 pre h.
-Proof. intros cap k m c0 pre h Hc Hk (A & B & C & D & E). now apply (history_refines cap k Hc Hk). Qed.
+  map erase (run_history m W64 hv cap c0 pre h) = spec_history cap c0 pre h.
+Proof. intros cap k m hv c0 pre h Hc Hk (A & B & C & D & E). now apply (history_refines cap k Hc Hk). Qed.
 Print Assumptions C08_refines.
 
 (* delivered is a subsequence of transmitted: same types, same bytes, same order *)
-Theorem C08_order : forall cap k m c0 pre h,
+Theorem C08_order : forall cap k m hv c0 pre h,
   cap = 2 ^ k -> 5 <= k <= 30 -> hist_ok cap W64 c0 pre h ->
-  subseq (delivered (run_history m W64 cap c0 pre h)) (transmitted_pre cap pre ++ transmitted cap h).
-Proof. intros cap k m c0 pre h Hc Hk. exact (model_order cap k Hc Hk m W64 c0 pre h). Qed.
+  subseq (delivered (run_history m W64 hv cap c0 pre h)) (transmitted_pre cap pre ++ transmitted cap h).
+Proof. intros cap k m hv c0 pre h Hc Hk. exact (model_order cap k Hc Hk m W64 hv c0 pre h). Qed.
 Print Assumptions C08_order.
 
 (* while the backlog (tail-intent - next_record) is below cap at every Receive: no error, no panic,
    and delivered ++ (what is still outstanding at the end) = (what was outstanding at the start) ++ transmitted *)
-Theorem C08_complete : forall cap k m c0 pre h,
+Theorem C08_complete : forall cap k m hv c0 pre h,
   cap = 2 ^ k -> 5 <= k <= 30 -> hist_ok cap W64 c0 pre h ->
   never_lapped cap (spec_init cap c0 pre) h ->
   Forall deliverable (transmitted_pre cap pre) -> Forall deliverable (transmitted cap h) ->
   let s0 := spec_init cap c0 pre in
   let sf := spec_final cap s0 h in
-  Forall clean (run_history m W64 cap c0 pre h) /\
-  delivered (run_history m W64 cap c0 pre h) ++ pending (s_ch sf) (s_next (s_rx sf))
+  Forall clean (run_history m W64 hv cap c0 pre h) /\
+  delivered (run_history m W64 hv cap c0 pre h) ++ pending (s_ch sf) (s_next (s_rx sf))
     = pending (s_ch s0) (s_next (s_rx s0)) ++ transmitted cap h /\
   s_lapped (s_rx sf) = 0.
-Proof. intros cap k m c0 pre h Hc Hk. exact (model_complete cap k Hc Hk m W64 c0 pre h). Qed.
+Proof. intros cap k m hv c0 pre h Hc Hk. exact (model_complete cap k Hc Hk m W64 hv c0 pre h). Qed.
 Print Assumptions C08_complete.
 
-Theorem C08_complete_from_start : forall cap k m c0 h,
+Theorem C08_complete_from_start : forall cap k m hv c0 h,
   cap = 2 ^ k -> 5 <= k <= 30 -> hist_ok cap W64 c0 [] h ->
   never_lapped cap (spec_init cap c0 []) h -> Forall deliverable (transmitted cap h) ->
   let sf := spec_final cap (spec_init cap c0 []) h in
-  Forall clean (run_history m W64 cap c0 [] h) /\
-  delivered (run_history m W64 cap c0 [] h) ++ pending (s_ch sf) (s_next (s_rx sf)) = transmitted cap h.
-Proof. intros cap k m c0 h Hc Hk. exact (model_complete_from_start cap k Hc Hk m W64 c0 h). Qed.
+  Forall clean (run_history m W64 hv cap c0 [] h) /\
+  delivered (run_history m W64 hv cap c0 [] h) ++ pending (s_ch sf) (s_next (s_rx sf)) = transmitted cap h.
+Proof. intros cap k m hv c0 h Hc Hk. exact (model_complete_from_start cap k Hc Hk m W64 hv c0 h). Qed.
 Print Assumptions C08_complete_from_start.
 
 (* a Receive that returns 0 messages means nothing transmitted so far is outstanding *)
@@ -77,24 +78,24 @@ Print Assumptions C08_drained.
 
 (* lapped: the first Receive after the lap returns UnableToKeepUp (lapped count + 1) and delivers
    nothing; every later delivery is an event transmitted after that Receive *)
-Theorem C08_overrun : forall cap k m c0 pre h1 h2,
+Theorem C08_overrun : forall cap k m hv c0 pre h1 h2,
   cap = 2 ^ k -> 5 <= k <= 30 -> hist_ok cap W64 c0 pre (h1 ++ Receive :: h2) ->
   let s0 := spec_init cap c0 pre in
   let s1 := spec_final cap s0 h1 in
   Forall (fun o => o <> OPanic) (spec_run cap s0 h1) ->
   cap <= backlog (s_ch s1) (s_rx s1) ->
-  let os := run_history m W64 cap c0 pre (h1 ++ Receive :: h2) in
+  let os := run_history m W64 hv cap c0 pre (h1 ++ Receive :: h2) in
   nth_error os (length h1) = Some (Rx (s_lapped (s_rx s1) + 1) (RErr UnableToKeepUp)) /\
   subseq (delivered (skipn (S (length h1)) os)) (transmitted cap h2).
-Proof. intros cap k m c0 pre h1 h2 Hc Hk. exact (model_overrun cap k Hc Hk m W64 c0 pre h1 h2). Qed.
+Proof. intros cap k m hv c0 pre h1 h2 Hc Hk. exact (model_overrun cap k Hc Hk m W64 hv c0 pre h1 h2). Qed.
 Print Assumptions C08_overrun.
 
 (* C08_wide: none of the above depends on c0 < 2^31 - they are stated for every c0 with
    c0 + 2*cap*ops < 2^62.  The code as found (W32) satisfies them only below 2^31 - cap ... *)
-Theorem C08_narrow_i32 : forall cap k m c0 pre h,
+Theorem C08_narrow_i32 : forall cap k m hv c0 pre h,
   cap = 2 ^ k -> 5 <= k <= 30 -> hist_ok cap W32 c0 pre h ->
-  map erase (run_history m W32 cap c0 pre h) = spec_history cap c0 pre h.
-Proof. intros cap k m c0 pre h Hc Hk (A & B & C & D & E). now apply (history_refines cap k Hc Hk). Qed.
+  map erase (run_history m W32 hv cap c0 pre h) = spec_history cap c0 pre h.
+Proof. intros cap k m hv c0 pre h Hc Hk (A & B & C & D & E). now apply (history_refines cap k Hc Hk). Qed.
 Print Assumptions C08_narrow_i32.
 
 (* ... and violates them beyond (witnesses; each was replayed on the implementation):
@@ -104,30 +105,30 @@ Print Assumptions C08_narrow_i32.
    is handed message 9 before messages 6, 7, 8 *)
 Definition t8 (k : Z) : op := Transmit 3841 (payload k 8).
 Example C08_wide_refuted_i32 :
-  run_history Debug W32 32 2147483616 [] [Transmit 7 (payload 745 4); Receive] = [TxOk; OPanic] /\
-  run_history Release W32 64 2147483584 [] [Transmit 3841 (payload 1 5); Receive]
+  run_history Debug W32 false 32 2147483616 [] [Transmit 7 (payload 745 4); Receive] = [TxOk; OPanic] /\
+  run_history Release W32 false 64 2147483584 [] [Transmit 3841 (payload 1 5); Receive]
     = [TxOk; Rx 1 (RErr UnableToKeepUp)] /\
-  delivered (run_history Release W32 64 2147483520 []
+  delivered (run_history Release W32 false 64 2147483520 []
      [t8 1; t8 2; t8 3; t8 4; t8 5; t8 6; t8 7; t8 8; t8 9; Receive; Receive; Receive; Receive])
     = [(3841, payload 9 8); (3841, payload 6 8); (3841, payload 7 8); (3841, payload 8 8)].
 Proof. repeat split; vm_compute; reflexivity. Qed.
 
 (* the same three histories on the repaired code *)
 Example C08_wide_repaired :
-  run_history Debug W64 32 2147483616 [] [Transmit 7 (payload 745 4); Receive]
+  run_history Debug W64 true 32 2147483616 [] [Transmit 7 (payload 745 4); Receive]
     = [TxOk; Rx 0 (RMsg 7 (payload 745 4))] /\
-  run_history Release W64 64 2147483584 [] [Transmit 3841 (payload 1 5); Receive]
+  run_history Release W64 true 64 2147483584 [] [Transmit 3841 (payload 1 5); Receive]
     = [TxOk; Rx 0 (RMsg 3841 (payload 1 5))] /\
-  run_history Release W64 64 2147483520 []
+  run_history Release W64 true 64 2147483520 []
      [t8 1; t8 2; t8 3; t8 4; t8 5; t8 6; t8 7; t8 8; t8 9; Receive; Receive]
     = [TxOk; TxOk; TxOk; TxOk; TxOk; TxOk; TxOk; TxOk; TxOk; Rx 1 (RErr UnableToKeepUp); Rx 1 RNone].
 Proof. repeat split; vm_compute; reflexivity. Qed.
 
 (* the oracle applied to the model's own observations is true on every history *)
-Theorem C08_oracle_seq : forall cap k m c0 pre h,
+Theorem C08_oracle_seq : forall cap k m hv c0 pre h,
   cap = 2 ^ k -> 5 <= k <= 30 -> hist_ok cap W64 c0 pre h ->
-  holds_seq cap c0 pre h (map show_obs (run_history m W64 cap c0 pre h)) = true.
-Proof. intros cap k m c0 pre h Hc Hk. exact (oracle_seq_model cap k Hc Hk m W64 c0 pre h). Qed.
+  holds_seq cap c0 pre h (map show_obs (run_history m W64 hv cap c0 pre h)) = true.
+Proof. intros cap k m hv c0 pre h Hc Hk. exact (oracle_seq_model cap k Hc Hk m W64 hv c0 pre h). Qed.
 Print Assumptions C08_oracle_seq.
 
 (* the hex rendering used to transport observations loses nothing *)
@@ -148,7 +149,7 @@ Qed.
 Example C08_never_lapped_example :
   never_lapped 64 (spec_init 64 2147483584 []) [Transmit 3841 (payload 1 5); Receive; t8 2; t8 3; Receive; Receive; Receive] /\
   Forall deliverable (transmitted 64 [Transmit 3841 (payload 1 5); Receive; t8 2; t8 3; Receive; Receive; Receive]) /\
-  delivered (run_history Debug W64 64 2147483584 [] [Transmit 3841 (payload 1 5); Receive; t8 2; t8 3; Receive; Receive; Receive])
+  delivered (run_history Debug W64 true 64 2147483584 [] [Transmit 3841 (payload 1 5); Receive; t8 2; t8 3; Receive; Receive; Receive])
     = [(3841, payload 1 5); (3841, payload 2 8); (3841, payload 3 8)].
 Proof.
   split; [|split].
@@ -162,7 +163,7 @@ Example C08_overrun_example :
   let s1 := spec_final 64 (spec_init 64 1099511627776 []) h1 in
   64 <= backlog (s_ch s1) (s_rx s1) /\
   Forall (fun o => o <> OPanic) (spec_run 64 (spec_init 64 1099511627776 []) h1) /\
-  run_history Release W64 64 1099511627776 [] (h1 ++ Receive :: [t8 6; Receive; Receive])
+  run_history Release W64 true 64 1099511627776 [] (h1 ++ Receive :: [t8 6; Receive; Receive])
     = [TxOk; TxOk; TxOk; TxOk; TxOk; Rx 1 (RErr UnableToKeepUp); TxOk; Rx 1 (RMsg 3841 (payload 6 8)); Rx 1 RNone].
 Proof.
   cbn zeta. split; [|split].
